@@ -188,6 +188,45 @@ def run(ck):
         for n in walk_body(newi))
     ck.ob("R4", "ExprInt.__new__:modular", masked, m.where(newi),
           "ExprInt does not reduce its value modulo 2^size before hash-consing: equal constants are different objects")
+    # the fields a __new__ stores on the interned object are the values the key was built from: a store of a value
+    # (re)computed after the lookup gives two objects with equal fields (equal repr/hash/pickle) that are not identical
+    from sa.cfg import CFG, node_calls
+    from sa.astutil import assigned_targets
+    for k in KINDS:
+        nf = m.funcs.get("%s.__new__" % k)
+        if nf is None:
+            continue
+        stores = [n for n in walk_body(nf) if isinstance(n, ast.Assign) and any(
+            isinstance(t, ast.Attribute) and isinstance(t.value, ast.Name) and t.attr.startswith("_") for t in assigned_targets(n))]
+        if not stores:
+            continue
+        cfg = CFG(nf.body)
+        gnodes = [nd for nd in cfg.nodes if any(dotted(c.func) == "Expr.get_object" for c in node_calls(nd))]
+        ck.need(gnodes, "%s.__new__: no Expr.get_object call" % k)
+        gcall = [c for c in node_calls(gnodes[0]) if dotted(c.func) == "Expr.get_object"][0]
+        key = gcall.args[1]
+        kel = [norm(e) for e in key.elts] if isinstance(key, ast.Tuple) else None
+        fields = em.fields[k]
+        for st in stores:
+            snode = cfg.node_containing(st)[0]
+            tg = st.targets[0]
+            pairs = list(zip(tg.elts, st.value.elts)) if isinstance(tg, ast.Tuple) and isinstance(st.value, ast.Tuple) else [(tg, st.value)]
+            for t, v in pairs:
+                f = t.attr.lstrip("_")
+                if f not in fields or kel is None or fields.index(f) >= len(kel):
+                    continue
+                want = kel[fields.index(f)]
+                ok = norm(v) == want
+                why = "stores `%s` but the key holds `%s`" % (norm(v), want)
+                if ok and isinstance(v, ast.Name):
+                    # no redefinition of the name between the lookup and the store
+                    for nd in cfg.nodes:
+                        if nd.kind == "stmt" and nd.ast is not st and any(isinstance(x, ast.Name) and x.id == v.id for x in assigned_targets(nd.ast)) \
+                                and cfg.can_reach(gnodes[0].id, nd.id) and cfg.can_reach(nd.id, snode.id) and nd.id != gnodes[0].id:
+                            ok = False
+                            why = "`%s` is recomputed (%s) after the key was built from it and before it is stored" % (v.id, m.where(nd.ast))
+                ck.ob("R4", "%s.__new__:stored-%s-is-key" % (k, f), ok, m.where(st),
+                      "the interned object's field %s %s: structurally equal expressions stop being one object" % (f, why))
     eq = m.func("Expr.__eq__")
     ok = any(isinstance(n, ast.Compare) and isinstance(n.ops[0], ast.Is) and norm(n.left) == "self" for n in walk_body(eq))
     ck.ob("R4", "Expr.__eq__:identity", ok, m.where(eq), "__eq__ has no identity fast path")
